@@ -17,6 +17,12 @@ RULE = ("random engines (1-2 exchanges, 1-3 instruments, links mostly healthy) a
         "ago re-delivered unchanged: skipped) and `rep_at s` (the last record stamped with sequence s = 0, an old number, far ahead up to u64::MAX), one or two such ops in a row, and 0-2 runs, 60 % of them through a "
         "transport fault; (c) 2 / 12 `long` cases: 150-400 events without a terminal one, then shutdown, one run through a fault and one clean run. The spec demands `run_rep_sync 1` for clean runs and for faults that only "
         "repeat records (dup, late); after a lost record only what the model says the replica did with the stream (`run_rep ok|err`) is demanded. "
+        "CONFIGURATION-SHAPE FAMILY (appended last, separately seeded, N/4 `cfg` cases; every case above is unchanged): the replica is assembled from the snapshot of a RUNNING engine instead of a fresh one - "
+        "(a) `resnap` = `audit_snapshot` of the case's engine after 0..len events (orders confirmed and in flight, positions, prices, a balance, trading on or off, sequence counter > 0) and a fresh `StateReplicaManager::new` on it, "
+        "fed by the following records, 1-3 times per case (also twice in a row, first, last), followed by `rep_dup` / `rep_gap` / `rep_old k` (records from BEFORE the snapshot: skipped) / `rep_at s`; observed: the snapshot's number, "
+        "the replica's start (`rep_start`) and state; (b) `runtwo <runner> k [fault]` = a SECOND RUN ON THE SAME ENGINE: events 0..k through the runner (own snapshot, channel, replica: `run1_*`), then a second snapshot (`snap2_seq`), "
+        "a new channel and the rest of the same feed through the runner into a fresh replica on the second snapshot, clean or through a transport fault (k = 0 / k >= length: one of the runs is the empty run; a shutdown / fatal event inside "
+        "the first part: the second run starts on a stopped engine). "
         "Distinct by SHA-1 of op lines; non-trivial when the observations change at least once")
 ASSUMPTIONS = [
     "PARTIAL: connectivity, balances, market-data registers and per-instrument tear sheets are updated by the identical update_from_account/market calls on engine and replica; they are modelled in C14/C09/C16/C18 and here compared directly on the real engine vs the real replica (rep_rest_eq), not re-proved",
@@ -33,6 +39,12 @@ ASSUMPTIONS = [
     "`rep_at s` with s = replica sequence + 1 would be a FORGED valid successor (not a missing or repeated record): harness and drivers reject it as `bad-op`; the generator never emits it. After a transport fault that loses a record "
     "(`drop`, `swap`) the replica has applied a prefix of the run: `run_rep_rest_eq` is not printed and `run_rep_sync` is model-vs-code only",
     "the replica starts from the engine's snapshot; a snapshot that itself contains in-flight markers is outside synced_snapshot's hypothesis",
+    "CONFIGURATION SHAPES (audit cfg1): `resnap` / `runtwo` build the replica from the snapshot of a pre-populated engine whose sequence counter is > 0 (a second snapshot / a second run on the same engine - legal for the API: "
+    "`Auditor::audit_snapshot` and the runners take any engine). The spec demands the order clause after a `resnap` / for the second run of `runtwo` only when that snapshot holds no in-flight marker (otherwise model vs code only) and, "
+    "for `runtwo`, when EventOk / FreshCids held for the whole history; the second run is fed the rest of the SAME feed (what the first run did not consume), so the two runs together process the history in order. "
+    "Fixed and NOT varied by the harness (open): the clock is `HistoricalClock` (times are not observed), the strategy's `OnDisconnect` / `OnTradingDisabled` outputs are `()`, the runtime of the async runner is current-thread, "
+    "one replica per audit stream (the channel is single-consumer), the replica reads a `Vec` of the records received on the real channel rather than the receiver itself (the receiver as `Iterator` is C10C's business), "
+    "instruments are spot only (shared engine protocol)",
 ]
 SOURCE_FILES = ["barter/src/engine/audit/mod.rs", "barter/src/engine/audit/state_replica.rs", "barter/src/engine/run.rs", "barter/src/engine/mod.rs",
                 "barter/src/engine/audit/context.rs", "barter/src/lib.rs", "barter/src/engine/clock.rs"]
